@@ -8,7 +8,7 @@ LEVEL_NOTE = ("float64 read as exact reals (no NaN/Inf/rounding), integers mathe
 
 claimed = {
  "C01": dict(
-   text="Deductive proof, per constructor, of the induction step of 'every expression tree has an enclosing box': with abstract operands assumed only to have an ordered box enclosing their solid (plus the stated Chebyshev lower bound for Offset/Shell/rounded extrusions), the box stored by the real constructor is ordered and contains every point where the real Evaluate of the result is negative, for all parameters and all points. Union2D / Union3D are proved for ANY number of operands (a symbolic array of abstract shapes, nil operands stripped, loop invariants; the union's Evaluate is seen through its separately proved contract 'the result is the value of one operand'). Array2D / Array3D are proved for any grid size (nested loop invariants with existential witnesses: the array's value is the operand's value at the point moved back by one grid offset, and every such copy lies in the hull of the first and the last copy's box). Constructors not yet under contract (rotate-unions, screw, text, obj parts, cams, gears) are listed in the evidence as not_decided.",
+   text="Deductive proof, per constructor, of the induction step of 'every expression tree has an enclosing box': with abstract operands assumed only to have an ordered box enclosing their solid (plus the stated Chebyshev lower bound for Offset/Shell/rounded extrusions), the box stored by the real constructor is ordered and contains every point where the real Evaluate of the result is negative, for all parameters and all points. Union2D / Union3D are proved for ANY number of operands (a symbolic array of abstract shapes, nil operands stripped, loop invariants; the union's Evaluate is seen through its separately proved contract 'the result is the value of one operand'). Array2D / Array3D are proved for any grid size (nested loop invariants with existential witnesses: the array's value is the operand's value at the point moved back by one grid offset, and every such copy lies in the hull of the first and the last copy's box). Rotate-unions: the constructors are proved to store the inverse step and to move the operand box's corners by the step itself each round (aggregate-valued recursive spec function), and Evaluate to return the operand's value at the point moved by one of the first num powers of the stored step; that the box is the hull of all those corner images and that this hull encloses every copy (inverse powers, convexity) is not_decided. Constructors not under contract (screw, text, obj parts, cams, gears) are listed in the evidence as not_decided.",
    design_ref="8.1",
    technique="contract-based deductive verification: constructor and Evaluate executed symbolically from go/ssa with uninterpreted operands, quantified operand assumptions instantiated at evaluation points, proof scripts (assert/use/generalize), SMT (QF_NRA)"),
  "C02": dict(
